@@ -66,8 +66,13 @@ fn cli_opts(c: &Cell) -> Vec<String> {
     let mut a = vec![];
     let mut push = |flag: &str, v: &Option<String>| {
         if let Some(v) = v {
-            a.push(flag.to_string());
-            a.push(v.clone());
+            // both spellings clap accepts: `--flag value` and `--flag=value` (the latter also for the empty value)
+            if (v.len() + flag.len()) % 2 == 0 {
+                a.push(format!("{flag}={v}"));
+            } else {
+                a.push(flag.to_string());
+                a.push(v.clone());
+            }
         }
     };
     match c.lang {
@@ -103,7 +108,11 @@ fn gen_cell(rng: &mut Rng, lang: LangId, bits: u32) -> Cell {
             _ => format!("mod{}{}", side, rng.below(9)),
         }
     };
-    let dual = |rng: &mut Rng, kind: &str, b: u32| Dual { cli: (b & 1 != 0).then(|| val(rng, kind, "cli")), file: (b & 2 != 0).then(|| val(rng, kind, "file")) };
+    // a prefix / module name given on the command line may be the empty string: it still is "given" and wins over the file
+    let dual = |rng: &mut Rng, kind: &str, b: u32| Dual {
+        cli: (b & 1 != 0).then(|| if kind != "package" && rng.chance(1, 4) { String::new() } else { val(rng, kind, "cli") }),
+        file: (b & 2 != 0).then(|| val(rng, kind, "file")),
+    };
     let prefix = if matches!(lang, LangId::Swift | LangId::Kotlin) { dual(rng, "prefix", bits & 3) } else { Dual::default() };
     let mut package = if matches!(lang, LangId::Kotlin | LangId::Scala | LangId::Go) { dual(rng, "package", (bits >> 2) & 3) } else { Dual::default() };
     if lang == LangId::Go {
